@@ -84,7 +84,7 @@ func checkNilRecords(c *Ctx) {
 		if !c.reachableFromAPI(fn) {
 			continue
 		}
-		ast.Inspect(fn.Decl.Body, func(nd ast.Node) bool {
+		inspectFn(fn, func(nd ast.Node) bool {
 			as, ok := nd.(*ast.AssignStmt)
 			if !ok || len(as.Rhs) != 1 {
 				return true
@@ -159,17 +159,43 @@ func unguardedDeref(c *Ctx, fn *core.Func, lookup *ast.AssignStmt, obj, okObj ty
 		body = enc.Body
 	}
 	g := cfg.New(body, func(call *ast.CallExpr) bool { return p.Builtin(call) != "panic" })
-	okName, objName := "", p.VarKey(obj)
-	if okObj != nil {
-		okName = p.VarKey(okObj)
-	}
+	// implied: local booleans assigned from a conjunction that contains the guard
+	implied := map[string]bool{}
 	var establishes func(cond ast.Expr, edgeTrue bool) bool
 	establishes = func(cond ast.Expr, edgeTrue bool) bool {
-		s := p.Canon(cond)
-		if edgeTrue {
-			return (okName != "" && (s == okName || strings.HasPrefix(s, "("+okName+"&&"))) || s == "("+objName+"!=nil)" || strings.HasPrefix(s, "(("+objName+"!=nil)&&")
+		switch v := ast.Unparen(cond).(type) {
+		case *ast.UnaryExpr:
+			if v.Op == token.NOT {
+				return establishes(v.X, !edgeTrue)
+			}
+		case *ast.BinaryExpr:
+			switch v.Op {
+			case token.LAND:
+				// both conjuncts hold on the true edge
+				return edgeTrue && (establishes(v.X, true) || establishes(v.Y, true))
+			case token.LOR:
+				// both disjuncts fail on the false edge
+				return !edgeTrue && (establishes(v.X, false) || establishes(v.Y, false))
+			case token.NEQ, token.EQL:
+				x, y := ast.Unparen(v.X), ast.Unparen(v.Y)
+				if isNilIdent(p, x) {
+					x, y = y, x
+				}
+				if id, ok := x.(*ast.Ident); ok && p.Info.Uses[id] == obj && isNilIdent(p, y) {
+					return edgeTrue == (v.Op == token.NEQ)
+				}
+			}
+		case *ast.Ident:
+			if o := p.Info.Uses[v]; o != nil {
+				if okObj != nil && o == okObj {
+					return edgeTrue
+				}
+				if implied[p.VarKey(o)] {
+					return edgeTrue
+				}
+			}
 		}
-		return (okName != "" && (s == "!"+okName || strings.HasPrefix(s, "(!"+okName+"||"))) || s == "("+objName+"==nil)" || strings.HasPrefix(s, "(("+objName+"==nil)||")
+		return false
 	}
 	var firstUse func(n ast.Node) token.Pos
 	firstUse = func(n ast.Node) token.Pos {
@@ -207,23 +233,30 @@ func unguardedDeref(c *Ctx, fn *core.Func, lookup *ast.AssignStmt, obj, okObj ty
 		})
 		return pos
 	}
-	// local booleans assigned from `ok && ...` imply the guard
-	implied := map[string]bool{}
+	// local booleans assigned (once) from an expression whose truth establishes the guard
+	assignCount := map[string]int{}
 	ast.Inspect(body, func(n ast.Node) bool {
-		if as, ok := n.(*ast.AssignStmt); ok && len(as.Lhs) == 1 && len(as.Rhs) == 1 {
-			if id, ok := as.Lhs[0].(*ast.Ident); ok && okName != "" && strings.HasPrefix(strings.TrimLeft(p.Canon(as.Rhs[0]), "("), okName+"&&") {
-				implied[p.Canon(id)] = true
+		if as, ok := n.(*ast.AssignStmt); ok {
+			for _, l := range as.Lhs {
+				if id, ok := l.(*ast.Ident); ok {
+					if o := p.Info.ObjectOf(id); o != nil {
+						assignCount[p.VarKey(o)]++
+					}
+				}
 			}
 		}
 		return true
 	})
-	baseEstablishes := establishes
-	establishes = func(cond ast.Expr, edgeTrue bool) bool {
-		if baseEstablishes(cond, edgeTrue) {
-			return true
+	ast.Inspect(body, func(n ast.Node) bool {
+		if as, ok := n.(*ast.AssignStmt); ok && len(as.Lhs) == 1 && len(as.Rhs) == 1 {
+			if id, ok := as.Lhs[0].(*ast.Ident); ok {
+				if o := p.Info.ObjectOf(id); o != nil && assignCount[p.VarKey(o)] == 1 && establishes(as.Rhs[0], true) {
+					implied[p.VarKey(o)] = true
+				}
+			}
 		}
-		return edgeTrue && implied[p.Canon(cond)]
-	}
+		return true
+	})
 	reassigned := func(n ast.Node) bool {
 		as, ok := n.(*ast.AssignStmt)
 		if !ok || n == ast.Node(lookup) {
@@ -444,7 +477,7 @@ func checkGoroutineExits(c *Ctx) {
 	targets := map[*core.Func]bool{}
 	var lits []*ast.FuncLit
 	for _, fn := range p.SortedFuncs() {
-		ast.Inspect(fn.Decl.Body, func(n ast.Node) bool {
+		inspectFn(fn, func(n ast.Node) bool {
 			gs, ok := n.(*ast.GoStmt)
 			if !ok {
 				return true
@@ -570,7 +603,7 @@ func checkRecordUseAfterUnlock(c *Ctx) {
 		}
 		// variables assigned from m.nodeMap[...] or &X.Node of such
 		ptrs := map[types.Object]token.Pos{}
-		ast.Inspect(fn.Decl.Body, func(nd ast.Node) bool {
+		inspectFn(fn, func(nd ast.Node) bool {
 			as, ok := nd.(*ast.AssignStmt)
 			if !ok || len(as.Rhs) != 1 {
 				return true
@@ -708,7 +741,7 @@ func checkLockOrder(c *Ctx) {
 	direct := map[*core.Func]map[string]bool{}
 	for _, fn := range p.SortedFuncs() {
 		direct[fn] = map[string]bool{}
-		ast.Inspect(fn.Decl.Body, func(n ast.Node) bool {
+		inspectFn(fn, func(n ast.Node) bool {
 			if call, ok := n.(*ast.CallExpr); ok {
 				if mu, op := mutexName(p, call); mu != "" && (op == "Lock" || op == "RLock") {
 					direct[fn][mu] = true
@@ -754,7 +787,7 @@ func checkLockOrder(c *Ctx) {
 	// direct nesting inside one function: Lock(b) while a held
 	for _, fn := range p.SortedFuncs() {
 		held := map[string]bool{}
-		ast.Inspect(fn.Decl.Body, func(n ast.Node) bool {
+		inspectFn(fn, func(n ast.Node) bool {
 			if _, isLit := n.(*ast.FuncLit); isLit {
 				return false
 			}
@@ -823,7 +856,7 @@ func checkAnyAlive(c *Ctx) {
 	c.Rule(rule)
 	ok := false
 	why := "no range over the member list returning true for a live non-local record"
-	ast.Inspect(fn.Decl.Body, func(n ast.Node) bool {
+	inspectFn(fn, func(n ast.Node) bool {
 		rs, isR := n.(*ast.RangeStmt)
 		if !isR || p.FieldOwner(rs.X) != "Memberlist.nodes" || len(rs.Body.List) != 1 {
 			return true
@@ -885,9 +918,11 @@ func checkAnyAlive(c *Ctx) {
 	for _, name := range []string{"Memberlist.Leave", "Memberlist.UpdateNode"} {
 		f := c.MustFunc(name)
 		uses := false
-		for _, s := range c.G.Sites[f] {
-			if s.Kind == "CALL" && s.To == fn.Obj {
-				uses = true
+		for _, g := range append([]*core.Func{f}, helpersOf(f)...) {
+			for _, s := range c.G.Sites[g] {
+				if s.Kind == "CALL" && s.To == fn.Obj {
+					uses = true
+				}
 			}
 		}
 		c.Check("C20/any-alive/used/"+name, rule, f.Decl.Pos(), uses, name+" waits without the live-peer test")
